@@ -619,3 +619,37 @@ Proof.
   intros Hp Hrest. destruct (write_hunk_total ph) as [out Hw]. exists out.
   destruct (write_parse_hunk ph out rest (parse_hunk_wf _ _ _ Hp) Hrest Hw) as (ph' & H1 & H2). eauto.
 Qed.
+
+(* ---------- a sequence of written hunks (a reject file's body) is read back ---------- *)
+
+Lemma write_hunk_starts ph out : write_hunk ph = Ok out -> exists t, out = 64 :: t.
+Proof.
+  unfold write_hunk. destruct (write_body _ _ _); cbn [bind]; try discriminate. intros [= <-].
+  Local Transparent hunk_header_line. unfold hunk_header_line. cbn. eauto. Local Opaque hunk_header_line.
+Qed.
+
+Theorem write_parse_hunks : forall hs, Forall wf_phunk hs -> forall out rest fuel acc,
+  write_hunks hs = Ok out -> starts_ok rest -> is_nomatch (parse_hunk_header rest) = true ->
+  (length hs < fuel)%nat ->
+  exists hs', parse_hunks fuel (out ++ rest) acc = Ok (POk rest (acc ++ hs')) /\ Forall2 same_hunk hs hs'.
+Proof.
+  intros hs Hwf. induction Hwf as [|h hs Hh Hhs IH]; intros out rest fuel acc Hw Hrest Hnm Hf.
+  - cbn in Hw. injection Hw as <-. destruct fuel; [cbn in Hf; lia|]. cbn [app parse_hunks].
+    unfold parse_hunk. destruct (parse_hunk_header rest) as [i hh|e]; [discriminate|].
+    destruct e; try discriminate. cbn [bind]. exists []. rewrite app_nil_r. split; [reflexivity|constructor].
+  - destruct fuel as [|f]; [cbn in Hf; lia|]. cbn [List.length] in Hf.
+    cbn [write_hunks] in Hw.
+    destruct (write_hunk h) as [x| |] eqn:Ex; cbn [bind] in Hw; try discriminate.
+    destruct (write_hunks hs) as [y| |] eqn:Ey; cbn [bind] in Hw; try discriminate.
+    injection Hw as <-.
+    assert (Hso : starts_ok (y ++ rest)).
+    { destruct hs as [|h2 hs2].
+      - cbn in Ey. injection Ey as <-. exact Hrest.
+      - cbn [write_hunks] in Ey. destruct (write_hunk h2) as [x2| |] eqn:Ex2; cbn [bind] in Ey; try discriminate.
+        destruct (write_hunks hs2); cbn [bind] in Ey; try discriminate. injection Ey as <-.
+        destruct (write_hunk_starts _ _ Ex2) as [t ->]. cbn. discriminate. }
+    destruct (write_parse_hunk h x (y ++ rest) Hh Hso Ex) as (h' & Hp & Hsame).
+    cbn [parse_hunks]. rewrite <- app_assoc, Hp. cbn [bind].
+    destruct (IH y rest f (acc ++ [h']) eq_refl Hrest Hnm ltac:(lia)) as (hs' & -> & Hall).
+    exists (h' :: hs'). rewrite <- app_assoc. split; [reflexivity|]. constructor; assumption.
+Qed.
